@@ -59,6 +59,10 @@ type Feat struct {
 	Mask     uint8  `json:"mask"`                    // returned by Negotiate
 	BindLike bool   `json:"bindlike,omitempty"`      // returns Ready when it is the sole pending mandatory feature
 	Fail     bool   `json:"fails,omitempty"`         // Negotiate returns an error
+	// FailTimeout: the error it fails with is a timeout in the sense of net.Error
+	// (what a read inside the feature returns when a deadline left on the
+	// connection expires) although the negotiation's context is live.
+	FailTimeout bool `json:"fails_with_timeout,omitempty"`
 	// Wrap: a restarting feature that returns a new io.ReadWriter wrapped around
 	// session.Conn() (like stream compression) instead of session.Conn() itself.
 	Wrap bool `json:"wraps_connection,omitempty"`
@@ -93,6 +97,10 @@ type Sel struct {
 	Pick     int    `json:"pick"`
 	IQ       bool   `json:"iq,omitempty"`
 	Children bool   `json:"children,omitempty"`
+	// Alt: the selection element has this local name instead of the advertised
+	// one (same namespace), the usual pattern of XMPP features: mechanisms/auth,
+	// compression/compress, sm/enable, sm/resume.
+	Alt string `json:"selection_local_name,omitempty"`
 }
 
 // Cfg is a whole case.
@@ -225,6 +233,7 @@ func genFeats(r *rand.Rand, receiver bool) []Feat {
 		}
 		if !f.Info && r.Intn(25) == 0 {
 			f.Fail = true
+			f.FailTimeout = r.Intn(2) == 0
 		}
 		if !f.Info && !f.Req && !f.Restart && !f.Fail && r.Intn(5) == 0 {
 			f.EarlyReady = true
@@ -253,6 +262,7 @@ func genSession(r *rand.Rand, role string, ws, tee bool, feats []Feat) *Cfg {
 	if role == "receiver" {
 		for i, m := 0, 1+r.Intn(7); i < m; i++ {
 			s := Sel{Cat: "fresh", Pick: r.Intn(1 << 16), IQ: r.Intn(6) == 0, Children: r.Intn(5) == 0}
+			s.Alt = []string{"", "", "", "enable", "resume", "auth"}[r.Intn(6)]
 			switch r.Intn(14) {
 			case 0:
 				s.Cat = "unadvertised"
@@ -771,6 +781,10 @@ func (e *exec) onNegotiate(f *Feat, s *xmpp.Session, data any) (xmpp.SessionStat
 	}
 	if f.Fail {
 		e.c.Count("failing_negotiate_calls", 1)
+		if f.FailTimeout {
+			e.c.Count("failing_negotiate_calls_with_a_timeout_error", 1)
+			return 0, nil, fmt.Errorf("c01: feature %s fails: %w", f.Local, os.ErrDeadlineExceeded)
+		}
 		return 0, nil, fmt.Errorf("c01: feature %s fails", f.Local)
 	}
 	mask := f.Mask
@@ -1387,7 +1401,12 @@ func (e *exec) receiverScript(written []byte) ([]byte, bool) {
 		el = elemText(nsUnknown, "unk", false, sel.Children)
 	} else {
 		f := pool[sel.Pick%len(pool)]
-		el = elemText(f.Space, f.Local, false, sel.Children)
+		local := f.Local
+		if sel.Alt != "" {
+			local = sel.Alt
+			e.c.Count("selections_whose_element_name_differs_from_the_advertised_one", 1)
+		}
+		el = elemText(f.Space, local, false, sel.Children)
 		if cat == "fresh" {
 			e.lastSelLegit, e.legitRan = f, false
 		}
